@@ -67,7 +67,7 @@ def relation(g, g2, exact=True):
 
 
 def run(ctx):
-    n = 250 if ctx.tier == "quick" else 5000
+    n = 750 if ctx.tier == "quick" else 10000
     done = 0
     while done < n and ctx.time_left() > 8:
         batch = gen_valid_graphs(ctx, min(250, n - done))
